@@ -197,6 +197,23 @@ pub fn check(tape: &[u32]) -> CheckResult {
         (None, Err(e)) => return Err(Failure::new("load-error", format!("well-formed file failed to load: {}", e)).with(detail())),
         (None, Ok(f)) => {
             compare_palette(&s, &f).map_err(|e| e.with(detail()))?;
+            // another sprite alive at the same time, whose legacy palette chunk has the same payload bytes but
+            // the other kind (0x0004 <-> 0x0011), must decode by its own kind
+            if let (Some(l), None) = (&s.legacy, &s.palette) {
+                if l.packets.iter().all(|p| p.colors.iter().all(|c| c.iter().all(|v| *v < 64))) {
+                    let mut sib = s.clone();
+                    sib.legacy.as_mut().unwrap().kind = if l.kind == 0x0004 { 0x0011 } else { 0x0004 };
+                    let eb = encode(&sib, &plan);
+                    let fb = AsepriteFile::read(&eb.bytes[..]).map_err(|e| Failure::new("load-error", format!("sibling failed to load: {}", e)).with(detail()))?;
+                    compare_palette(&sib, &fb).map_err(|mut e| {
+                        e.signature = format!("cross-sprite-state:{}", e.signature);
+                        e.msg = format!("a sprite loaded while another sprite with byte-identical legacy palette payload of the other kind is alive decodes wrongly: {}", e.msg);
+                        e.with(detail())
+                    })?;
+                    compare_palette(&s, &f).map_err(|e| e.with(detail()))?;
+                    o.labels.push("legacy-kind-sibling-alive".into());
+                }
+            }
             if let Some(l) = &s.legacy {
                 if s.palette.is_none() {
                     o.labels.push(format!("legacy-only-{:#06x}", l.kind));
